@@ -12,15 +12,20 @@ DOMS = {
     'str': [None, 'a', ''],
     'bool': [None, True],
     'date': [None, D('2024-02-29')],
+    # one column, several literal kinds: the column has the common type of its cells (int + double = double) and keeps every value
+    'num': [None, 1, F(1.5), -2],
+    # no common SQL type: an explicit error is fine, a value that is not the listed one (in either spelling) is not
+    'intstr': [None, 1, 'a'],
 }
+MIXED = {'num', 'intstr'}
 
 
 def run(rep):
     quick = rep.tier == 'quick'
     maxrows = 2 if quick else 3
-    typecombos = [(t,) for t in DOMS] + [('int', 'str'), ('int', 'int'), ('str', 'dbl'), ('date', 'bool')]
+    typecombos = [(t,) for t in DOMS] + [('int', 'str'), ('int', 'int'), ('str', 'dbl'), ('date', 'bool'), ('num', 'str')]
     if not quick:
-        typecombos += [('int', 'str', 'dbl'), ('int', 'int', 'int'), ('bool', 'date', 'str')]
+        typecombos += [('int', 'str', 'dbl'), ('int', 'int', 'int'), ('bool', 'date', 'str'), ('num', 'num'), ('str', 'intstr')]
     lists = []
     for tc in typecombos:
         rowdom = list(itertools.product(*[DOMS[t] for t in tc]))
@@ -38,6 +43,11 @@ def run(rep):
         body = ', '.join('(' + ', '.join(sql_lit(v) for v in r) + ')' for r in rows)
         vals = 'VALUES ' + body
         nc = len(tc)
+        if 'intstr' in tc:
+            # ill-typed in standard SQL: only the bare and derived forms, compared textually, errors accepted
+            st.append({'sql': vals, 'expect_rows': rows, 'tag': 'bare-untypable', 'textual': True, 'nontrivial': True})
+            st.append({'sql': 'SELECT * FROM (%s) AS v' % vals, 'expect_rows': rows, 'tag': 'derived-untypable', 'textual': True, 'nontrivial': True})
+            continue
         names = ['x', 'y', 'z'][:nc]
         alias = 'v(%s)' % ', '.join(names)
         cte = 'WITH v(%s) AS (%s) ' % (', '.join(names), vals)
@@ -65,7 +75,7 @@ def run(rep):
                 st.append({'sql': 'SELECT a FROM t UNION ALL %s' % vals, 'expect_rows': [[1], [None], [-2], [1]] + rows, 'tag': 'union-table',
                            'nontrivial': True})
     units = [{'db': db, 'stmts': c} for c in chunks(st, 120)]
-    rep.rule = ('all VALUES lists with 1..%d rows x 1..%d columns over per-column typed literal domains (int, double, string, boolean, date, each with NULL; '
+    rep.rule = ('all VALUES lists with 1..%d rows x 1..%d columns over per-column typed literal domains (int, double, string, boolean, date, each with NULL, plus a column mixing integer and decimal literals and one mixing integers and strings; '
                 'no all-NULL column), used bare / as a derived table (with and without column aliases) / under aggregate, WHERE+ORDER BY, UNION ALL, JOIN, IN; '
                 'oracle = the listed rows (SQLite for the composed forms); an Execution/Internal error on the bare/derived forms is a violation'
                 % (maxrows, 2 if quick else 3))
